@@ -241,6 +241,50 @@ def judge(spec):
         d = [x for x in d if not x.startswith("modes")]
         if d:
             return (key("differs-after-edit", equiv.classify(d)), "; ".join(d)[:300] + " ;; " + t4[-200:])
+    if spec.get("inplace"):
+        # the caller edits the values it handed over IN PLACE between two dumps (an array element assigned, an array
+        # scaled, a list extended), and replaces an array by fresh arrays several times in a row (a freed array's address
+        # is handed out again): every dumps describes the program as it is at that moment
+        import numpy as np
+
+        def edit(prog, rnd):
+            for o in prog.operations:
+                for v in list(o.get("args", [])) + list(o.get("kwargs", {}).values()):
+                    if isinstance(v, np.ndarray) and v.flags.writeable:
+                        if rnd == 0:
+                            v.flat[v.size - 1] = v.flat[0] + 3       # one element assigned
+                        else:
+                            v *= 2                                   # the whole array scaled in place
+                    elif isinstance(v, list):
+                        v.append(v[0] if v else 7)
+        for rnd in (0, 1):
+            edit(p, rnd)
+            st4, t4 = common.dumps(p)
+            if st4 == "exc":
+                return (key("dumps-after-inplace-edit-raises", type(t4).__name__), common.exc_sig(t4))
+            st5, q5 = common.loads(t4)
+            if st5 == "exc":
+                return (key("reload-after-inplace-edit-raises", type(q5).__name__), common.exc_sig(q5) + " ;; " + t4[-200:])
+            want = make(spec)
+            for r_ in range(rnd + 1):
+                edit(want, r_)
+            d = equiv.prog_equiv(want, q5)
+            if set(want.parameters) != _written_parameters(want):
+                d = [x for x in d if not x.startswith("parameters")]
+            if d:
+                return (key("differs-after-inplace-edit", equiv.classify(d)), "round %d: " % rnd + "; ".join(d)[:300] + " ;; " + t4[-200:])
+        a0 = p.operations[0].get("args") or []
+        if a0 and isinstance(a0[0], np.ndarray):
+            shape, dt = a0[0].shape, a0[0].dtype
+            for k in range(1, 6):
+                p.operations[0]["args"][0] = (np.arange(int(np.prod(shape))).reshape(shape) + 10 * k).astype(dt)      # the previous array is freed here
+                st4, t4 = common.dumps(p)
+                st5, q5 = common.loads(t4) if st4 == "ok" else ("exc", t4)
+                if st5 == "exc":
+                    return (key("dumps-or-reload-after-replacement-raises", type(q5).__name__), common.exc_sig(q5))
+                got = q5.operations[0]["args"][0] if q5.operations and q5.operations[0].get("args") else None
+                if not (isinstance(got, np.ndarray) and got.shape == shape and (got == p.operations[0]["args"][0]).all()):
+                    return (key("differs-after-replacement"), "replacement %d: wrote %r, script gives %r ;; %s" % (k, p.operations[0]["args"][0].tolist(), getattr(got, "tolist", lambda: got)(), t4[-200:]))
     if spec.get("share"):
         # serialising must leave the values it was given as they were, and give the same text again
         st3, t3 = common.dumps(p)
@@ -306,6 +350,11 @@ def build(ctx):
         if ty:
             spec["type"] = ty
         add("dumps, edit, dumps again", spec)
+    for i, ty in itertools.product(arrays + lists, (None, ("tdm", []))):
+        spec = {"ops": [{"op": "G", "args": [i, 1] if i in arrays else [1], "kwargs": [("k", i)], "modes": [0]}, {"op": "H", "args": [2], "modes": [1]}], "inplace": True}
+        if ty:
+            spec["type"] = ty
+        add("dumps, edit in place / replace by fresh arrays, dumps again", spec)
     step = 1
     for i, j in itertools.product(scalars[::step] + arrays[::4], repeat=2):
         add("2 positional", {"ops": [{"op": "G", "args": [i, j], "modes": [1, 0], "npmodes": True}]})
